@@ -244,6 +244,12 @@ Theorem C19_encoder_frame_bound : forall o L si rate bps number chans bytes,
   N.of_nat (length bytes) <= 16 + (ch * (8 + n * bps) + (if ch =? 2 then n else 0) + 7) / 8 + 2.
 Proof. exact enc_frame_size. Qed.
 
+(* C19, second clause: a run of n equal samples costs at most 96 bits per channel, whatever n is *)
+Theorem C19_encoder_constant_block : forall o L bps c n,
+  (1 <= n)%nat -> fits bps c = true -> 1 <= bps -> bps <= 32 ->
+  sf_bits bps (enc_sub o L bps (repeat c n)) <= 96.
+Proof. exact enc_sub_constant. Qed.
+
 (* non-vacuity: a 16-bit stereo block of 6 samples satisfies block_ok and the model encoder turns it into
    a side/right frame with FIXED predictors, which decodes back *)
 Definition ex_si : streaminfo := {| si_min_bs := 16; si_max_bs := 16; si_min_fs := 0; si_max_fs := 0; si_rate := 44100;
